@@ -66,3 +66,17 @@ Section Tensors.
   (* small integer constants of the source, as ring terms *)
   Fixpoint fnat (k : nat) : R := match k with O => 0 | S O => 1 | S k' => fnat k' + 1 end.
 End Tensors.
+
+(* Arrays over trailing axes: functions T -> R with POINTWISE operations (T = the index set of the trailing axes).
+   A generated helper term instantiated at [FunOps T] is the helper applied to whole arrays; the lemmas
+   "..._pointwise" (Dyn.C20_Helpers) show that its value at a trailing index t is the scalar helper applied to the
+   slices at t, which is how the scalar theorems transfer to arrays. *)
+#[global] Instance FunOps (T : Type) {R : Type} {ops : FOps R} : FOps (T -> R) :=
+  {| f0 := fun _ => f0; f1 := fun _ => f1;
+     fadd := fun f g t => fadd (f t) (g t); fmul := fun f g t => fmul (f t) (g t);
+     fsub := fun f g t => fsub (f t) (g t); fopp := fun f t => fopp (f t);
+     fdiv := fun f g t => fdiv (f t) (g t); finv := fun f t => finv (f t) |}.
+
+Lemma fsum_pointwise {T R : Type} {ops : FOps R} (n : nat) (f : nat -> T -> R) (t : T) :
+  fsum (ops := FunOps T) n f t = fsum n (fun k => f k t).
+Proof. induction n as [|n IH]; simpl; [reflexivity|]. rewrite IH. reflexivity. Qed.
